@@ -216,6 +216,8 @@ def config_text(case):
         if mv_:
             # moving restraint (continuous update): centres and/or force constant are functions of the step number
             L.append("  targetNumSteps %d" % mv_["N"])
+            if mv_.get("stages"):
+                L.append("  targetNumStages %d" % mv_["stages"])
             if mv_.get("tc") is not None:
                 L.append("  targetCenters " + " ".join(("%r" % c) if not isinstance(c, (tuple, list)) else "(" + ", ".join("%r" % x for x in c) + ")" for c in mv_["tc"]))
             if mv_.get("tk") is not None:
@@ -282,7 +284,7 @@ def n_event_steps(case):
     """steps run before the base step because of the history: one warm-up step (the components are in use when they are
     modified) and one step after every script call"""
     n = len(event_lines(case))
-    return n + 1 if (n or case.get("fd_setstep") is not None) else 0
+    return (n + 1 if (n or case.get("fd_setstep") is not None) else 0) + len(case.get("stage_visits", []))
 
 
 def npre_steps(case):
@@ -335,6 +337,8 @@ def scenario(case, tag, with_fd=True):
         L += ["show cv 0 bias 0 atomf 0", "step"]
         for ln in ev:
             L += [ln, "step"]
+        for X in case.get("stage_visits", []):
+            L += ["setstep %d" % (X - 1), "step"]
     for pre in case.get("presteps", []):      # history biases: steps at other positions first
         L.append("show cv 1 bias 0 atomf 0")
         for i, p in pre:
@@ -519,6 +523,9 @@ def model_line(case, res=None):
         if b.get("moving"):
             # colvarbias_restraint_centers_moving / k_moving::update, continuous: lambda = (step - first_step) / targetNumSteps
             lam = float(case["fd_setstep"] + 1 - (case.get("init_step") or 0)) / float(b["moving"]["N"])
+            if b["moving"].get("stages"):
+                # staged: the k-th visited jump step sets lambda = (k - 1) / stages (the stage counter starts at 0)
+                lam = float(b["moving"]["K"] - 1) / float(b["moving"]["stages"])
             if b["moving"].get("tk") is not None:
                 keff = lambda k0: k0 + (b["moving"]["tk"] - k0) * lam ** b["moving"].get("kexp", 1.0)
         if b["type"] in ("harmonic", "linear"):
@@ -1051,12 +1058,28 @@ def gen_case(r, kinds, opts):
         N = r.choice([1024, 512, 1000, 6, 12, 7, 5, 3])          # also targetNumSteps that are not powers of two
         if r.random() < 0.4:
             case["init_step"] = r.choice([2 ** 31, 2 ** 32 + 7, 2 ** 53 + 1001, 2 ** 62 - 5000])
+        staged = r.random() < 0.3 and not case.get("events")     # (event steps would pass through jump steps themselves)
+        if staged:
+            # staged centres (targetNumStages >= 3): the centres jump at the steps first + 1 + k n; the scenario visits K of
+            # them (setstep + step), then measures between two of them: lambda = (K - 1) / stages
+            N = r.choice([10, 7, 12])
+            nst = r.choice([3, 4, 5])
+            K = r.randint(1, nst + 1)
+            first = case.get("init_step") or 0
         for b in case["biases"]:
             if b["type"] not in ("harmonic", "linear", "walls"):
                 continue
             mv_ = {"N": N}
             m = r.random()
             plain_vars = not any(var_period(case["vars"][t[0]]) for t in b["terms"])
+            if staged:
+                if b["type"] == "walls" or not plain_vars:
+                    continue
+                m = 0.0
+                mv_["stages"] = nst
+                mv_["K"] = K
+                case["stage_visits"] = [first + 1 + k_ * N for k_ in range(K)]
+                case["fd_setstep"] = first + (K - 1) * N + N // 2
             if b["type"] != "walls" and plain_vars and m < 0.5:
                 def shift(c):
                     if isinstance(c, (tuple, list)):
@@ -2039,7 +2062,8 @@ def check(run):
                 run.dist("restart:%s:%s" % (b["type"], case["restart"]["fmt"]))
         for b in case["biases"]:
             if b.get("moving"):
-                run.dist("moving:%s:%s" % (b["type"], "centers" if b["moving"].get("tc") is not None else "forceConstant"))
+                run.dist("moving:%s:%s%s" % (b["type"], "centers" if b["moving"].get("tc") is not None else "forceConstant",
+                                             ":staged%d:after%d" % (b["moving"]["stages"], b["moving"]["K"]) if b["moving"].get("stages") else ""))
         if res is not None and not res.get("done") and res.get("config") and "err=ok" in res["config"]:
             run.violation("crash:" + signature(case)[3:], "the engine simulator died (rc=%s) on a generated configuration: %s" % (res.get("rc"), res.get("stderr", "")[-200:]),
                           {"kind": "scenario", "scenario": scenario(case, "0")})
